@@ -64,7 +64,7 @@ Muls == (-MulNeg)..MulPos
 (***************************************************************************)
 \* An assignment is a number 0..2^|Vars|-1 whose bits are the values of the variables (variable v has
 \* the bit of weight Weight[v]); a truth table is then a function on an integer interval, which TLC
-\* indexes directly (tables over function-valued assignments made trace validation 20x slower).
+\* indexes directly (cheaper to build, hash and look up than tables over function-valued assignments).
 NV == Cardinality(Vars)
 VarList == SetToSeq(Vars)
 Weight == [v \in Vars |-> 2 ^ ((CHOOSE i \in 1..NV : VarList[i] = v) - 1)]
